@@ -183,7 +183,7 @@ func (r *Reader) traverseNode(n *html.Node, ctx *parseContext) {
 					Items:   ctx.listItems,
 					Ordered: ctx.listOrdered,
 				})
-				ctx.inList = false
+				// (inList stays set: later items of the same list still belong to a list)
 				ctx.listItems = nil
 			}
 
@@ -206,7 +206,7 @@ func (r *Reader) traverseNode(n *html.Node, ctx *parseContext) {
 					Items:   ctx.listItems,
 					Ordered: ctx.listOrdered,
 				})
-				ctx.inList = false
+				// (inList stays set: later items of the same list still belong to a list)
 				ctx.listItems = nil
 			}
 
@@ -296,7 +296,7 @@ func (r *Reader) traverseNode(n *html.Node, ctx *parseContext) {
 					Items:   ctx.listItems,
 					Ordered: ctx.listOrdered,
 				})
-				ctx.inList = false
+				// (inList stays set: later items of the same list still belong to a list)
 				ctx.listItems = nil
 			}
 
@@ -383,7 +383,7 @@ func (r *Reader) traverseNodeFiltered(n *html.Node, ctx *parseContext, elements 
 					Items:   ctx.listItems,
 					Ordered: ctx.listOrdered,
 				})
-				ctx.inList = false
+				// (inList stays set: later items of the same list still belong to a list)
 				ctx.listItems = nil
 			}
 
@@ -406,7 +406,7 @@ func (r *Reader) traverseNodeFiltered(n *html.Node, ctx *parseContext, elements 
 					Items:   ctx.listItems,
 					Ordered: ctx.listOrdered,
 				})
-				ctx.inList = false
+				// (inList stays set: later items of the same list still belong to a list)
 				ctx.listItems = nil
 			}
 
@@ -496,7 +496,7 @@ func (r *Reader) traverseNodeFiltered(n *html.Node, ctx *parseContext, elements 
 					Items:   ctx.listItems,
 					Ordered: ctx.listOrdered,
 				})
-				ctx.inList = false
+				// (inList stays set: later items of the same list still belong to a list)
 				ctx.listItems = nil
 			}
 
